@@ -4,6 +4,7 @@ CONSTANTS
   Sizes <- SAll
   Opts <- OPlain
   FlushOnWait = FALSE  FlushBeforeDirect = TRUE  ResetSlot = TRUE
+  Stall = FALSE  TimeoutSticky = TRUE
 SPECIFICATION Spec
-INVARIANTS TypeOK WholeInOrderOnePerQuery ReplyOptIsOwn SlotIsZeroBetweenRequests NothingHeldWhileBlocked ClassFits TokenConservation ClosedIsClean
+INVARIANTS TypeOK WholeInOrderOnePerQuery StreamEndsAtFailedWrite ReplyOptIsOwn SlotIsZeroBetweenRequests NothingHeldWhileBlocked ClassFits TokenConservation ClosedIsClean
 CHECK_DEADLOCK FALSE
